@@ -65,13 +65,64 @@ T = [
  ("C05-B", "C05", "C05.R5", "buffer limit measured from the cursor"),
  ("fixrev-396f23a", "C05", "C05.R2", "fallback of an empty route list runs with the deadline armed"),
  ("fixrev-2c4eaef", "C05", "C05.R6", "UDP deadline truncated to whole seconds"),
+ # ---- round 2 (sub-agents told to differ from round 1) ----
+ ("C01-C", "C01", "C01.R8", "hand-off delivers a wrapper around the inner Conn after TLS termination"),
+ ("C01-C", "C13", "C13.R6", "hand-off delivers a wrapper around the inner Conn"),
+ ("C01-D", "C01", "C01.R5", "throttle wraps a conn built on cx.Conn, bypassing cx's buffer"),
+ ("C01-D", "C17", "C17.R3", "throttle hands on Wrap(...) instead of installing the throttled conn"),
+ ("C02-C", "C02", "C02.R1", "AnyMatch lets a later set's match override an earlier error"),
+ ("C02-D", "C02", "C02.R7", "router slip found by round 2"),
+ ("C03-C", "C03", "C03.R1", "tee chain rebuilt from the raw downstream: only the last peer gets the stream"),
+ ("C03-D", "C03", "C03.R7", "Read drops the consumed prefix but keeps the cursor"),
+ ("C03-D", "C01", "C01.R3", "Read drops the consumed prefix but keeps the cursor"),
+ ("C04-C", "C04", "C04.R1", "rdp correlation-info bound uses the wrong start"),
+ ("C04-D", "C04", "C04.R8", "http2 frame loop falls through to an unchecked type assertion"),
+ ("C05-C", "C05", "C05.R2", "deadline not cleared before the fallback after a matched route"),
+ ("C05-D", "C05", "C05.R7", "UDP SetReadDeadline drains the timer channel (can block for ever)"),
+ ("C06-C", "C06", "C06.R8", "AnyMatch skips a set that needs more data"),
+ ("C06-D", "C06", "C06.R9", "lastNeedsMoreIdx treated as a high-water mark: stale verdicts survive"),
+ ("C07-C", "C07", "C07.R7", "renegotiation SCSV not appended to the cipher suites"),
+ ("C07-D", "C07", "C07.R5", "bare tls matcher returns before parsing: placeholders unset"),
+ ("C08-C", "C08", "C08.R7", "hijack guard evaluated at defer time (always nil)"),
+ ("C08-C", "C13", "C13.R3", "hijack guard evaluated at defer time"),
+ ("C08-D", "C08", "C08.R6", "pooled buffer not truncated before WrapConnection"),
+ ("C09-C", "C09", "C09.R6", "datagram record hoisted out of the loop: queued pointers alias"),
+ ("C09-D", "C09", "C09.R7", "'fully consumed' decided by n < len(b)"),
+ ("C10-C", "C10", "C10.R2", "least_conn: unavailable upstreams lower the minimum"),
+ ("C10-D", "C10", "C10.R4", "full() compares the sum over peers with the per-peer limit"),
+ ("C11-C", "C11", "C11.R8", "passive policy attached only if max_fails already > 0 (default applied later)"),
+ ("C11-D", "C11", "C11.R7", "tryAgain gives up one interval early"),
+ ("C12-C", "C12", "C12.R3", "header buffer drained by the first peer"),
+ ("C12-D", "C12", "C12.R1", "LOCAL/UNSPEC header: next gets the original connection"),
+ ("C12-D", "C01", "C01.R7", "LOCAL/UNSPEC header: next gets the original connection"),
+ ("C13-C", "C13", "C13.R3", "buffer recycled when the outer buffer is empty although the wrapped one shares it"),
+ ("C13-D", "C13", "C13.R8", "hand-off runs with the matching deadline armed"),
+ ("C14-C", "C14", "C14.R7", "clock: zone offset cached at provisioning"),
+ ("C14-D", "C14", "C14.R6", "rdp: HYBRID/HYBRID_EX dependency swapped"),
+ ("C15-C", "C15", "C15.R9", "'!private_ranges' compared before the '!' is stripped"),
+ ("C15-D", "C15", "C15.R8", "tls_except_ports appends to Curves"),
+ ("C16-C", "C16", "C16.R5", "account names filtered before placeholder resolution"),
+ ("C16-D", "C16", "C16.R1", "default command rule shared by pointer between handlers"),
+ ("C17-C", "C17", "C17.R1", "token shortcut through Tokens()/AllowN (check-then-act)"),
+ ("C17-D", "C17", "C17.R3", "latency skipped when no limiter is configured"),
+ ("C18-C", "C18", "C18.R1", "RDPToken.ToBytes recomputes Length"),
+ ("C18-D", "C18", "C18.R1", "openvpn MessageAuth reads the packet id one byte early"),
 ]
+NEUTRAL = ["neutral%d-N%d" % (a, b) for a in (1, 2) for b in range(1, 9)]
+PROPS = ["C%02d" % i for i in range(1, 19)]
 out = []
 for d, prop, expect, why in T:
     p = os.path.join("seeded", d, "patch.diff")
     if not os.path.exists(os.path.join(here, p)):
         raise SystemExit("missing " + p)
     out.append({"name": d, "property": prop, "patch": p, "expect": expect, "why": why})
+# behaviour-preserving refactorings: no rule of any property may fire on them
+for d in NEUTRAL:
+    p = os.path.join("seeded", d, "patch.diff")
+    if not os.path.exists(os.path.join(here, p)):
+        raise SystemExit("missing " + p)
+    for prop in PROPS:
+        out.append({"name": d, "property": prop, "patch": p, "neutral": True, "why": "behaviour-preserving refactoring by an independent sub-agent"})
 os.makedirs(os.path.join(here, "selftest"), exist_ok=True)
 json.dump(out, open(os.path.join(here, "selftest", "seeded.json"), "w"), indent=1)
 print(len(out), "variants")
